@@ -7,7 +7,7 @@
    Panic codes used by the Transform models (reflect / runtime panics):
      1 NumField/Field on a non-struct        2 index or slice bounds out of range
      3 reflect.Set/Append/SetMapIndex with a non-assignable value
-     4 IsNil on a non-nilable kind           5 reflect.StructOf: duplicate field
+     4 IsNil on a non-nilable kind           5 (unused since the fix: StructOf duplicate field)
      6 reflect.StructOf: unexported / invalid field name
      7 Addr of an unaddressable value        8 failed interface type assertion
      9 Type.Elem of a wrong kind            10 Convert of a non-convertible value
@@ -15,7 +15,7 @@
    250 a conversion/shape outside the modelled universe (never expected)
    Err codes: 1 flatten: field not pointerized   2 flatten: value type not assignable
      3 flatten: number of values <> number of leaves   4 flatten: cannot set (unexported)
-    10 alias: expected 1 or 2 tuples   20 final assembly: incompatible types
+    10 alias: expected 1 or 2 tuples   20 final assembly: incompatible types   22 duplicate field name after mangling
     21 recursive unmangle: element not assignable   30/31 set-slice: not a slice / wrong element
     40 text-unmarshaler: UnmarshalText failed   255 out of fuel
     alias "both set": alias_both_code name (>= 2^32, carries the field name);
